@@ -417,9 +417,9 @@ func genFamily(maxFull int, nestedCtxs []int) []GenProg {
 // Computed once when the harness package is initialised.
 var genProgs = func() []GenProg {
 	if Tier() == 0 {
-		return genFamily(2, []int{GFunc})
+		return append(genFamily(2, []int{GFunc}), genCallAndRec()...)
 	}
-	return genFamily(3, nil)
+	return append(genFamily(3, nil), genCallAndRec()...)
 }()
 
 func GenPrograms() []GenProg { return genProgs }
